@@ -206,6 +206,25 @@ func TestVerifC06Tables(t *testing.T) {
 		}
 	}
 
+	// resume: sequence 0 holds the positions of every subset of {0..4} (cell i = position i), window 1 or 2;
+	// CanResume(0, pos) for pos 0..6
+	for _, w := range []int32{1, 2} {
+		for bits := 0; bits < 32; bits++ {
+			for pos := int32(0); pos <= 6; pos++ {
+				c, _ := vtCache(w, 5)
+				var occ []string
+				for i := 0; i < 5; i++ {
+					if bits>>i&1 == 1 {
+						c.cells[i] = cacheCell{pos: int32(i), sequences: []int{0}}
+					}
+					occ = append(occ, vtB(bits>>i&1 == 1))
+				}
+				vtSetRanges(c)
+				fmt.Fprintf(&sb, "resume %d [%s] %d %s\n", w, strings.Join(occ, ", "), pos, vtB(c.CanResume(0, pos)))
+			}
+		}
+	}
+
 	if err := os.WriteFile(zzverif.OutDir()+"/tables.txt", []byte(sb.String()), 0o644); err != nil {
 		t.Fatal(err)
 	}
